@@ -23,6 +23,9 @@ EXPLANATION = (
 ASSUMPTIONS = ["conversions of synthesised sub-schemas (merged schemas) are not decided"]
 
 
+SCHEMA_OBJECT_MEMBERS = {"instance_type", "format", "enum_values", "const_value", "subschemas", "number", "string", "array", "object", "reference", "extensions"}
+
+
 def run(facts, rep, tier):
     c = facts.impl
     run_w4(facts, rep)
@@ -265,11 +268,38 @@ def run(facts, rep, tier):
         if rep.floor("C14.W3", "SchemaCache::" + meth, len(hh), 1):
             st = [n for n, _ in nodes(hh[0]["body"], "struct") if n["path"].endswith("SchemaObject")]
             ok = bool(st) and dict((k, src(v)) for k, v in st[0]["fields"]).get("metadata") == "None"
-            rep.ob("C14.W3", "annotations-ignored:" + meth, ok, "%s strips metadata before comparing" % meth if ok else "SchemaCache::%s compares annotations" % meth)
+            msg = "%s strips metadata before comparing" % meth if ok else "SchemaCache::%s compares annotations" % meth
+            if not ok and meth == "lookup":
+                # the other way to ignore annotations: compare member by member. Then every member of schemars' SchemaObject
+                # except `metadata` has to be compared - a member left out makes the conversion apply to schemas that differ
+                # in it (reviewed list: schemars 0.8 SchemaObject; `metadata` is the annotations)
+                cmp_ = set()
+                for n, _ in nodes(hh[0]["body"], "bin"):
+                    l, r = n["l"], n["r"]
+                    if n["op"] == "Eq" and l.get("k") == "field" and r.get("k") == "field" and l["name"] == r["name"] \
+                            and "SchemaObject" in c.ty(l["e"].get("ty")) and "SchemaObject" in c.ty(r["e"].get("ty")) and src(l["e"]) != src(r["e"]):
+                        cmp_.add(l["name"])
+                if cmp_:
+                    missing, extra = sorted(SCHEMA_OBJECT_MEMBERS - cmp_), sorted(cmp_ - SCHEMA_OBJECT_MEMBERS)
+                    ok = not missing and not extra
+                    msg = ("lookup compares every member of SchemaObject except metadata (%d members)" % len(cmp_)) if ok else \
+                        ("SchemaCache::lookup compares annotations (%s)" % extra if extra else
+                         "SchemaCache::lookup compares member by member and leaves out %s: a conversion is applied to a schema that differs from the configured one in that member" % missing)
+            rep.ob("C14.W3", "annotations-ignored:" + meth, ok, msg)
     new = [h for h in c.user_fns() if ends(h["fn"], "TypeSpace::new")]
     if new:
         s = Canon(c, new[0], 5).r(new[0]["body"])
         ok = bool(re.search(r"\$&TypeSpaceSettings\.convert\.iter\(\)\.for_each\(\|\.\.\| \S+\.insert\(elem<\S+>~TypeSpaceConversion\.schema, elem<\S+>~TypeSpaceConversion\.type_name, elem<\S+>~TypeSpaceConversion\.impls\)\)", s))
+        if not ok:
+            # any other loop over the configured conversions: the insert takes the element's three members and is not conditional
+            cn_ = Canon(c, new[0], 5)
+            ELEM = r"(elem<[^>]*\$&TypeSpaceSettings\.convert[^>]*>|Iterator::next\(IntoIterator::into_iter\(\$&TypeSpaceSettings\.convert(\.iter\(\))?\)\)~Some\.0)(~TypeSpaceConversion)?"
+            for n, a in nodes(new[0]["body"], "mcall"):
+                if n["name"] == "insert" and n.get("fn", "").endswith("SchemaCache::insert") and len(n.get("args", [])) == 3:
+                    args = [cn_.r(x) for x in n["args"]]
+                    cond = [g for g in guards(a, n) if g[0] in ("if", "else") or (g[0] == "adaptor" and g[1] in ("filter", "filter_map", "take", "skip", "take_while", "skip_while")) or (g[0] == "arm" and g[1] not in ("_",) and "Some" not in g[1])]
+                    if all(re.fullmatch(ELEM + r"\." + f_, a_) for f_, a_ in zip(("schema", "type_name", "impls"), args)) and not cond:
+                        ok = True
         rep.ob("C14.W3", "conversions-loaded", ok, "TypeSpace::new loads every configured conversion into the cache" if ok else "TypeSpace::new does not insert every configured conversion (schema, type_name, impls) into the cache")
 
 
